@@ -6,6 +6,7 @@ import (
 	"fmt"
 	"sort"
 	"strings"
+	"time"
 
 	"github.com/ipfs/go-cid"
 	"github.com/ipld/go-ipld-prime"
@@ -13,6 +14,7 @@ import (
 	basicnode "github.com/ipld/go-ipld-prime/node/basic"
 	"github.com/ipni/go-libipni/dagsync"
 	ic "github.com/libp2p/go-libp2p/core/crypto"
+	"github.com/libp2p/go-libp2p/core/peer"
 
 	"verif/harness/syncdrv"
 	"verif/harness/vlib"
@@ -37,11 +39,13 @@ type CfgJ struct {
 	SegDepth     int64  `json:"seg_depth"`
 	EntriesDepth int64  `json:"entries_depth"`
 	Strict       bool   `json:"strict"`
-	Hook         string `json:"hook"` // none | nominate | silent
+	Hook         string `json:"hook"`                  // none | nominate | silent
+	LastKnown    int    `json:"last_known,omitempty"`  // WithLastKnownSync answers this block for the publisher (0: option not given)
+	IdleTTLms    int    `json:"idle_ttl_ms,omitempty"` // IdleHandlerTTL (0: default, one hour)
 }
 
 type CallJ struct {
-	T       string `json:"t"`                  // ad | entries | one | all
+	T       string `json:"t"`                  // ad | entries | one | all | remove (RemoveHandler) | idle (sleep past IdleHandlerTTL)
 	Head    int    `json:"head,omitempty"`     // WithHeadAdCid (rank; 0 = query the publisher)
 	Stop    int    `json:"stop,omitempty"`     // WithStopAdCid
 	Resync  bool   `json:"resync,omitempty"`   // WithAdsResync
@@ -61,7 +65,7 @@ type Scn struct {
 	Pre    []int    `json:"pre,omitempty"`    // blocks already in the destination store
 	Calls  []CallJ  `json:"calls"`
 	// what the generator knows, for the direct oracles
-	Oracle string `json:"oracle"`          // adchain | entchain | one | tree | none
+	Oracle string `json:"oracle"`          // adchain | entchain | one | tree | adseq | none
 	Chain  []int  `json:"chain,omitempty"` // the chain, in traversal order (newest / first block first)
 	Group  string `json:"group,omitempty"`
 }
@@ -145,8 +149,15 @@ type scnObs struct {
 	sub    *syncdrv.Sub
 }
 
-func subOptions(c CfgJ) []dagsync.Option {
+func subOptions(c CfgJ, w *syncdrv.World) []dagsync.Option {
 	var o []dagsync.Option
+	if c.LastKnown != 0 {
+		lk := w.CidOf(c.LastKnown)
+		o = append(o, dagsync.WithLastKnownSync(func(peer.ID) (cid.Cid, bool) { return lk, true }))
+	}
+	if c.IdleTTLms != 0 {
+		o = append(o, dagsync.IdleHandlerTTL(time.Duration(c.IdleTTLms)*time.Millisecond))
+	}
 	if c.AdsDepth != 0 {
 		o = append(o, dagsync.AdsDepthLimit(c.AdsDepth))
 	}
@@ -173,7 +184,7 @@ func execScn(sc Scn) scnObs {
 		hidden = append(hidden, w.CidOf(r))
 	}
 	srv.Reset(hidden, nil)
-	sub := syncdrv.NewSub(sc.Cfg.Hook, subOptions(sc.Cfg)...)
+	sub := syncdrv.NewSub(sc.Cfg.Hook, subOptions(sc.Cfg, w)...)
 	sub.Prestore(w, sc.Pre)
 	if sc.Latest != 0 {
 		if err := sub.S.SetLatestSync(srv.PeerID, w.CidOf(sc.Latest)); err != nil {
@@ -188,6 +199,29 @@ func execScn(sc Scn) scnObs {
 		var co callObs
 		var ret cid.Cid
 		isAd := c.T == "ad"
+		if c.T == "remove" || c.T == "idle" {
+			if c.T == "remove" {
+				co.err = fmt.Sprintf("removed=%v", sub.S.RemoveHandler(srv.PeerID))
+			} else {
+				// the cleaner ticks every TTL and drops handlers idle for longer than the TTL
+				time.Sleep(time.Duration(sc.Cfg.IdleTTLms) * time.Millisecond * 7 / 2)
+				co.err = fmt.Sprintf("still-there=%v", sub.S.RemoveHandler(srv.PeerID))
+			}
+			co.ret, co.hookPeer = "nil", true
+			for _, h := range sub.TakeHooks() {
+				co.hooks = append(co.hooks, rankOf(w, h.Cid))
+			}
+			blocks, heads, other := syncdrv.BlockRequests(srv.TakeLog())
+			for _, b := range blocks {
+				co.reqs = append(co.reqs, rankOf(w, b))
+			}
+			co.heads, co.other = heads, other
+			if l := sub.S.GetLatestSync(srv.PeerID); l != nil {
+				co.latest = rankOf(w, l.(cidlink.Link).Cid)
+			}
+			out.calls = append(out.calls, co)
+			continue
+		}
 		err, pan := syncdrv.Call(func(ctx context.Context) error {
 			var so []dagsync.SyncOption
 			if c.Depth != 0 {
@@ -369,8 +403,15 @@ func checkScn(sc Scn, o scnObs) (string, string, string) {
 	if o.evErr {
 		return "event-err", "event:error-event", "a SyncFinished event with an error was emitted by an explicit sync"
 	}
+	if sc.Oracle == "adseq" {
+		return checkSeq(sc, o)
+	}
 	if sc.Oracle == "none" || len(sc.Calls) != 1 {
 		return "", "", ""
+	}
+	latest0 := sc.Latest
+	if latest0 == 0 {
+		latest0 = sc.Cfg.LastKnown // GetLatestSync falls back on WithLastKnownSync
 	}
 	c, co := sc.Calls[0], o.calls[0]
 	hook := effHook(sc, c)
@@ -394,7 +435,7 @@ func checkScn(sc Scn, o scnObs) (string, string, string) {
 		}
 		stop = c.Stop
 		if stop == 0 && !c.Resync {
-			stop = sc.Latest
+			stop = latest0
 		}
 		limit := sc.Cfg.AdsDepth
 		if c.Depth != 0 {
@@ -498,7 +539,7 @@ func checkScn(sc Scn, o scnObs) (string, string, string) {
 		if co.retRank != head {
 			return "return", sig("return"), desc(fmt.Sprintf("SyncAdChain did not return the head %d", head))
 		}
-		wantLatest, wantEvents := sc.Latest, [][2]int(nil)
+		wantLatest, wantEvents := latest0, [][2]int(nil)
 		if queried && head != stop {
 			wantLatest, wantEvents = head, [][2]int{{head, len(expected)}}
 		}
@@ -511,7 +552,7 @@ func checkScn(sc Scn, o scnObs) (string, string, string) {
 		if queried && co.heads != 1 || !queried && co.heads != 0 {
 			return "head-queries", sig("head-queries"), desc(fmt.Sprintf("%d head queries", co.heads))
 		}
-	} else if len(o.events) != 0 || co.latest != sc.Latest {
+	} else if len(o.events) != 0 || co.latest != latest0 {
 		return "entries-latest", sig("entries-latest"), desc("an entries sync changed the latest sync or emitted an event")
 	}
 	// the same outcome whatever the segment size, the hook placement and the pre-stored subset
@@ -527,6 +568,92 @@ func checkScn(sc Scn, o scnObs) (string, string, string) {
 		groups[key] = out
 	}
 	return "", "", ""
+}
+
+// checkSeq: a sequence of queried-head SyncAdChain calls with handler removals in between,
+// on a strict chain with everything available.  The latest sync is followed here in Go:
+// it is the head of the last successful queried sync (else the initial / last-known one),
+// whatever happens to the publisher's handler.
+func checkSeq(sc Scn, o scnObs) (string, string, string) {
+	latest := sc.Latest
+	if latest == 0 {
+		latest = sc.Cfg.LastKnown
+	}
+	var wantEvents [][2]int
+	hist := ""
+	for i, c := range sc.Calls {
+		co := o.calls[i]
+		hist += fmt.Sprintf("%s(%d)->%v;", c.T, c.PubHead, co.hooks)
+		sig := func(what string) string {
+			return fmt.Sprintf("seq-%s:step=%d:n=%d:seg=%d:first=%d:ttl=%d:lastknown=%d:%s", what, i, len(sc.Chain), sc.Cfg.SegDepth, sc.Cfg.FirstDepth, sc.Cfg.IdleTTLms, sc.Cfg.LastKnown, callsSig(sc.Calls))
+		}
+		switch c.T {
+		case "remove", "idle":
+			if len(co.hooks) != 0 || len(co.reqs) != 0 {
+				return "seq-removal-activity", sig("removal-activity"), "removing the handler called the hook or requested blocks"
+			}
+			if co.latest != latest {
+				return "seq-latest-lost", sig("latest-lost-with-handler"),
+					fmt.Sprintf("after %s the latest sync of the publisher is %d, it was %d (history %s)", c.T, co.latest, latest, hist)
+			}
+			if c.T == "idle" && co.err != "still-there=false" {
+				return "seq-idle", sig("idle-handler-not-removed"), "the idle cleaner did not remove the handler within 3.5 TTL: " + co.err
+			}
+		case "ad":
+			head := c.PubHead
+			stop := c.Stop
+			if stop == 0 && !c.Resync {
+				stop = latest
+			}
+			limit := sc.Cfg.AdsDepth
+			if c.Depth != 0 {
+				limit = c.Depth
+			} else if stop == 0 && sc.Cfg.FirstDepth != 0 {
+				limit = sc.Cfg.FirstDepth
+			}
+			expected := cut(takeUntil(from(sc.Chain, head), stop), limit)
+			if co.ret != "ok" || co.retRank != head {
+				return "seq-return", sig("return"), fmt.Sprintf("call %d did not return the head %d: %s %d %s", i, head, co.ret, co.retRank, co.err)
+			}
+			if !eqInts(co.hooks, expected) {
+				return "seq-hook-log", sig("hook-log"),
+					fmt.Sprintf("call %d (publisher head %d, latest sync %d): the hook log %v is not the segment %v back to, excluding, the last synced advertisement (history %s)", i, head, latest, co.hooks, expected, hist)
+			}
+			for _, r := range co.reqs {
+				if r == stop || !has(expected, r) {
+					return "seq-req", sig("requested-stop-or-older"), fmt.Sprintf("call %d requested block %d, which is the stop block or older (history %s)", i, r, hist)
+				}
+			}
+			if head != stop {
+				latest = head
+				wantEvents = append(wantEvents, [2]int{head, len(expected)})
+			}
+			if co.latest != latest {
+				return "seq-latest", sig("latest"), fmt.Sprintf("after call %d the latest sync is %d, not %d", i, co.latest, latest)
+			}
+		}
+	}
+	if fmt.Sprint(o.events) != fmt.Sprint(wantEvents) {
+		return "seq-events", fmt.Sprintf("seq-events:%s", callsSig(sc.Calls)), fmt.Sprintf("SyncFinished events %v, expected %v", o.events, wantEvents)
+	}
+	return "", "", ""
+}
+
+func callsSig(cs []CallJ) string {
+	var parts []string
+	for _, c := range cs {
+		switch c.T {
+		case "ad":
+			p := fmt.Sprintf("ad%d", c.PubHead)
+			if c.Resync {
+				p += "r"
+			}
+			parts = append(parts, p)
+		default:
+			parts = append(parts, c.T)
+		}
+	}
+	return strings.Join(parts, ",")
 }
 
 func dedup(a []int) []int {
@@ -596,8 +723,8 @@ func coqWorld(sc Scn) string {
 }
 
 func coqCase(sc Scn, o scnObs) string {
-	cfg := fmt.Sprintf("(CFG %s %s %s %s %s %s)", coqZ(sc.Cfg.AdsDepth), coqZ(sc.Cfg.FirstDepth), coqZ(sc.Cfg.SegDepth),
-		coqZ(sc.Cfg.EntriesDepth), vlib.CoqBool(sc.Cfg.Strict), coqHook(sc.Cfg.Hook))
+	cfg := fmt.Sprintf("(CFG %s %s %s %s %s %s %s)", coqZ(sc.Cfg.AdsDepth), coqZ(sc.Cfg.FirstDepth), coqZ(sc.Cfg.SegDepth),
+		coqZ(sc.Cfg.EntriesDepth), vlib.CoqBool(sc.Cfg.Strict), coqHook(sc.Cfg.Hook), coqOptCid(sc.Cfg.LastKnown))
 	st := fmt.Sprintf("(ST %s %s)", coqOptCid(sc.Latest), coqCids(sc.Pre))
 	var calls []string
 	for i, c := range sc.Calls {
@@ -612,6 +739,10 @@ func coqCase(sc Scn, o scnObs) string {
 			ct = fmt.Sprintf("(COne %s)", coqOptCid(c.Ent))
 		case "all":
 			ct = fmt.Sprintf("(CAll %s %s)", coqOptCid(c.Ent), coqOptHook(c.Hook))
+		case "remove":
+			ct = "CRemove"
+		case "idle":
+			ct = "CIdle"
 		}
 		co := o.calls[i]
 		ret := "RErr"
